@@ -25,6 +25,11 @@ def run_suites(scratch, suites, jobs=12, mode="hist", harness_env=None, timeout=
     """suites: list of (suite name, list of history line lists).  returns per-history results"""
     work = []
     for sname, hists in suites:
+        if sname.startswith("odd-"):
+            # one probe process per history
+            for i, h in enumerate(hists):
+                work.append((sname, i, [h]))
+            continue
         for i, ch in enumerate(chunked(hists, 6000)):
             work.append((sname, i, ch))
     results = {}
